@@ -2,12 +2,50 @@ SPEC = dict(
     id="C16",
     bin="c16",
     coq_dir="C16",
-    coq_targets=["C16/Proofs.vo", "C16/Proofs2.vo", "C16/Examples.vo"],
+    coq_targets=["C16/Proofs.vo", "C16/Proofs2.vo", "C16/Proofs3.vo", "C16/Examples.vo"],
     allowed_axioms=[],
-    level_text="(filled at the end)",
-    level_note="(filled at the end)",
-    technique="Coq proof over hand-written Gallina model + vm_compute correspondence + reference lookup walker oracle",
-    modelled=[],
-    not_covered=[],
-    assumptions=[],
+    level_text=("Unbounded Coq theorems (19, all closed under the global context) about an executable model of the OpenType-layout "
+                "builders, readers and overflow-splitting edits: coverage tables built from ANY u16 glyph list answer membership and "
+                "coverage index exactly as the sorted set through the real binary-search readers, in either format and in the "
+                "overflow-checks profile (coverage_get_spec, coverage_format_choice_irrelevant, coverage_membership); class "
+                "definitions built from ANY assignment list answer the assigned class / 0, in either format "
+                "(classdef_get_spec, classdef_format_choice_irrelevant); split_coverage on any well-formed table and any window "
+                "(split_coverage_preserves); splitting a PairPos format 1 / format 2 / MarkBasePos subtable at ANY strictly "
+                "increasing in-range split points preserves the first-match lookup for every glyph pair and yields nothing for "
+                "pairs without a rule (split_pp1_preserves, split_pp2_preserves, split_m2b_preserves); promotion to an extension "
+                "lookup preserves the lookup, flags, mark filtering set and subtable count (promote_preserves). "
+                "The model is tied to the code on every run: ~1650 cases (builder outputs byte-parsed back, reader answers on built and on "
+                "malformed raw tables incl. unsorted arrays that exercise the modelled core::slice::binary_search_by, and the split "
+                "structure — per-piece coverage / classdef1 / mark arrays / base columns / lookup header — of every table the real compiler "
+                "split or promoted) evaluated with vm_compute.  PairPosBuilder / MarkToBaseBuilder grouping and the byte-level TableData "
+                "surgery are covered by an implementation-only reference lookup walker (every rule pair + thousands of pairs without a rule "
+                "on rule sets from ~200 bytes to >4x64 KiB) — partial for those."),
+    level_note=("Trusted: Coq kernel; the hand-written model coq/C16/Model.v (agreement with write-fonts/read-fonts is checked on every run, not proved); "
+                "the harness generators and the reference walker. The split-point size heuristics are NOT modelled: the theorems quantify over all "
+                "strictly increasing in-range split points, and the shards replay the points the real compiler chose. "
+                "builder_pairpos_spec (PairPosBuilder grouping) is tested only."),
+    technique="Coq proof (induction over sorted lists / range lists, binary-search invariants, lia) over a hand-written Gallina model + vm_compute correspondence + implementation-only reference lookup walker",
+    modelled=[
+        "write-fonts/src/tables/layout/builders.rs: CoverageTableBuilder::{from_glyphs,build}, should_choose_coverage_format_2, ClassDefBuilderImpl::{from_iter,prefer_format_1,build}, iter_class_ranges",
+        "write-fonts/src/tables/layout.rs: RangeRecord::iter_for_glyphs, are_sequential",
+        "read-fonts/src/tables/layout.rs: CoverageFormat1::get, CoverageFormat2::get (incl. u16 overflow outcome), CoverageTable::iter, ClassDefFormat1::get, ClassDefFormat2::get; core::slice::binary_search_by (rustc 1.95 branch-free loop)",
+        "write-fonts/src/graph/splitting.rs: split_coverage, split_range_record (incl. the three panic outcomes)",
+        "write-fonts/src/graph/splitting/pairpos.rs: split_pair_pos_format_1 / split_off_ppf1, split_pair_pos_format_2 / split_off_ppf2 (class_map, coverage and classdef1 rebuilt through the builders, class re-basing) at the abstract level",
+        "write-fonts/src/graph/splitting/mark2base.rs: get_class_info, split_off_mark_pos, split_off_mark_array, split_off_base_array at the abstract level",
+        "write-fonts/src/graph.rs: actually_promote_subtables (lookup header and extension records)",
+    ],
+    not_covered=[
+        "split-point selection (accumulated-size heuristics, ClassDefSizeEstimator, device-table accounting) and select_promotions_hb: not modelled; theorems hold for every admissible choice, the oracle checks the choices the compiler made still pack and preserve semantics",
+        "PairPosBuilder / ClassPairPosBuilder / MarkToBaseBuilder / ClassDefBuilder (glyph sets -> class ids by size): implementation-only oracle (reference walker / mapping check), no Coq theorem (builder_pairpos_spec not proved)",
+        "byte-level TableData surgery (offset-record index arithmetic, device offsets redistributed by copy_value_rec): tied to the abstract edits by the shards (structure) and the walker (values, device / variation-index records), not by theorems",
+        "split_m2b_preserves assumes the mark coverage iterates in increasing glyph order with indices = positions (m2b_cov_ok): proved for every builder-made coverage in either format (built_coverage_meets_split_assumptions), an assumption for hand-made tables",
+        "GSUB builders, SinglePos/Cursive/MarkLig/MarkMark builders: not covered",
+    ],
+    assumptions=[
+        "glyph ids, classes and coverage indices are u16 (Forall u16 in the theorems); BTreeMap / sort_unstable+dedup behave as sorted association lists / sorted sets",
+        "core::slice::binary_search_by is the branch-free loop of rustc >= 1.82 (modelled; validated on unsorted inputs by the raw-table shards)",
+    ],
+    trusted_base=[
+        "reference lookup walker in harness/src/bin/c16.rs (first-match over subtables, extension indirection read per subtable, PairPos1/2 and MarkBasePos decoding via read-fonts accessors, coverage/classdef queries via read-fonts get)",
+    ],
 )
